@@ -2,6 +2,7 @@
 mod c07;
 mod c08;
 mod c12;
+mod c22;
 mod cx;
 
 fn main() {
@@ -11,6 +12,7 @@ fn main() {
         "C07" => c07::run(args),
         "C08" => c08::run(args),
         "C12" => c12::run(args),
+        "C22" => c22::run(args),
         p => vcommon::machinery_fail(&format!("clusterx does not serve property {p} (yet)")),
     }
 }
